@@ -59,6 +59,12 @@ def run(rep):
              'able to raise IndexError out of the lookup (handled, sliced, or taken '
              'from a private copy) - a length test before it is stale as soon as '
              'other Python code runs', floor=3)
+    rep.rule('B8', 'hashing a key can run Python too (`provided` is any hashable object, '
+             '`name` may be an instance of a str subclass, a class specification hashes '
+             'in Python): no key is hashed into a cache dictionary the function does not '
+             'own - a volatile field of self handed to a probing helper, or a local still '
+             'borrowed out of the caches - because changed() inside __hash__ frees that '
+             'dictionary under PyDict_GetItem/PyDict_SetItem', floor=4)
     rep.rule('B6', 'the extendor lists handed to in-flight walks are replaced, '
              'never edited in place (add_extendor/remove_extendor build a new '
              'list per ancestor; shared with C04 R04.3)', floor=2)
@@ -70,9 +76,8 @@ def run(rep):
     rep.assume('with the GIL, other Python code runs inside these C functions '
                'only at calls that may execute Python (effect table in '
                'zverif/cown.py)')
-    rep.assume('tier 2 (only dictionary-key hashing/comparison between borrow '
-               'and use) is informational: keys hash and compare without side '
-               'effects')
+    rep.assume('key *comparison* (__eq__ of a colliding key) inside a dictionary probe is '
+               'not modelled as a callback point; key *hashing* is (rule B8)')
 
     summ = Summaries(u)
     rep.require(not (summ.unknown_api - {'PyList_New', 'PyModuleDef_Init',
@@ -110,6 +115,24 @@ def run(rep):
                            'which frees the dictionary/tuple this pointer refers to'},
                    construct='%s:%s' % (f['kind'], f['var']))
             rep.obls[-1].where = '_zope_interface_coptimizations.c:%s' % f['line']
+
+    # ---- B8 -------------------------------------------------------------------
+    nb8 = 0
+    for fn in scope:
+        hs = bor.hash_into_borrowed(fn)
+        for h in hs:
+            nb8 += 1
+            ccheck(rep, 'B8', fn, False,
+                   {'dictionary': h['dict_expr'], 'hashed_at': h['call'], 'line': h['line'],
+                    'how': h['how'],
+                    'why': 'the key\'s __hash__ may call changed() (any registration does), '
+                           'which frees this dictionary while the probe/fill is using it'},
+                   construct='hash-into-borrowed:%s' % h['dict_expr'])
+            rep.obls[-1].where = '_zope_interface_coptimizations.c:%s' % h['line']
+        if not hs:
+            ccheck(rep, 'B8', fn, True, 'no key is hashed into a borrowed cache dictionary',
+                   construct='hash-into-borrowed')
+    rep.stat('b8_helpers_hashing_into_a_parameter', len(bor.hashes_into_param()))
 
     # ---- B2 -------------------------------------------------------------------
     bal = Balance(u, summ)
